@@ -784,3 +784,41 @@ func genLockRetry(cfg simkit.RunConfig, backend string) *Scenario {
 	sc.Knobs.GoDelayPm = []int{0, 300, 700}[r.Intn(3)]
 	return sc
 }
+
+// genLatch: mode "latch" (C17 through the transactional client). Optimistic transactions of one or two stores that run
+// with the local latch scheduler, few keys (their commits queue on the latches, some are refused as stale), no
+// pessimistic locks; mostly without message faults. Judged: every Commit returns (no transaction stays blocked in the
+// latch scheduler once the others have ended) - plus everything the C01 oracle says about such runs.
+func genLatch(cfg simkit.RunConfig, backend string) *Scenario {
+	r := simkit.Rand(cfg.Seed, "gen")
+	sc := &Scenario{Backend: backend, Victim: -1}
+	sc.Stores, sc.Splits = genLayout(r)
+	sc.Clients = 1 + r.Intn(2)
+	nk := 2 + r.Intn(3)
+	keys := keyPool[:nk]
+	n := 3 + r.Intn(5)
+	o := genOpts{maxTxns: 8, pessRate: 0.08, backend: backend, boundedRiter: true}
+	for i := 0; i < n; i++ {
+		p := genTxn(r, i, sc.Clients, o, keys)
+		if r.Intn(2) == 0 {
+			// several keys in one commit: a transaction may get some of its latches and be refused on a later one
+			for _, k := range subset(r, keys, 2, len(keys)) {
+				p.Ops = append(p.Ops, Op{Kind: "set", Keys: []string{k}, Val: fmt.Sprintf("l%d.%s", i, k)})
+			}
+		}
+		p.DelayMs = r.Intn(15)
+		sc.Txns = append(sc.Txns, p)
+	}
+	sc.Net.JitterUs = []int{0, 500, 3000, 20000}[r.Intn(4)]
+	if r.Intn(4) == 0 {
+		sc.Net.Random = true
+		sc.Net.Rate = []float64{0.03, 0.1}[r.Intn(2)]
+		sc.Net.Kinds = append([]simkit.Fate(nil), regionOnlyFaults...)
+	}
+	if r.Intn(3) == 0 {
+		sc.Topo = append(sc.Topo, TopoEvent{AtMs: r.Intn(100), Kind: pick(r, []string{"split", "leader", "merge"}), Key: pick(r, keys)})
+	}
+	sc.Knobs.Latches = []int{1, 2, 8, 256}[r.Intn(4)]
+	sc.Knobs.GoDelayPm = genGoDelay(r)
+	return sc
+}
